@@ -224,8 +224,22 @@ class RemoteSeqUnit(Unit):
                 if c["digest_of"] != "trunc":
                     r2 = h.B.load_csv_dataset_from_remote(h.remote(c["digest_of"]), "ds", "fam", data_home=h.root, delay=0.0, gzip=c["gzip"])
                     o["later"] = result_id(r2)
+                    # ... and again after the caller has edited, in place, what the previous (cache-hit) load returned: every load
+                    # returns the verified data, not an array shared with earlier callers
+                    if isinstance(r2, np.ndarray) and r2.flags.writeable:
+                        r2 *= 8.0
+                    r3 = h.B.load_csv_dataset_from_remote(h.remote(c["digest_of"]), "ds", "fam", data_home=h.root, delay=0.0, gzip=c["gzip"],
+                                                         unpack_dataset_columns=c["unpack"])
+                    o["later_after_edit"] = result_id(r3)
+                    # ... and after the entry has been replaced by another complete, verified copy (data home cleared, a new
+                    # revision published): the load returns what the entry holds now
+                    h.seed_cache("old")
+                    r4 = h.B.load_csv_dataset_from_remote(h.remote(c["digest_of"]), "ds", "fam", data_home=h.root, delay=0.0, gzip=c["gzip"])
+                    o["later_after_replace"] = result_id(r4)
             except Exception as e:
-                o["later"] = "exc:" + type(e).__name__
+                o.setdefault("later", "exc:" + type(e).__name__)
+                if "later_after_replace" not in o:
+                    o["later_exc"] = "%s: %s" % (type(e).__name__, str(e)[:100])
             return o
         finally:
             h.close()
@@ -276,6 +290,13 @@ class RemoteSeqUnit(Unit):
                 fail("cache-hit", "cached dataset not returned: %s" % (o.get("result") or o.get("exc")))
         if "later" in o and o["later"] not in ("good", "old"):
             fail("later-load", "a later load does not succeed with the verified data: %s" % o["later"])
+        elif "later" in o:
+            if o.get("later_exc"):
+                fail("later-load", "a further load raised %s" % o["later_exc"])
+            if "later_after_edit" in o and o["later_after_edit"] != o["later"]:
+                fail("later-load-shared", "after the caller edited the array a cache-hit load had returned, the next load returned %s, not the verified data (%s)" % (o["later_after_edit"], o["later"]))
+            if "later_after_replace" in o and o["later_after_replace"] != "old":
+                fail("later-load-stale", "after the entry was replaced by another verified copy the load returned %s, not what the entry holds" % o["later_after_replace"])
         if any("tmp" in os.path.basename(os.path.dirname(p)) for p in o["listing"] if p != os.path.join("fam", "ds")):
             pass  # temp dirs are removed by TemporaryDirectory on normal exits; leftovers are judged in the crash unit
         return F
